@@ -306,3 +306,121 @@ Section Linked.
       + apply IH; auto; cbn in Hb, Hb'; lia.
   Qed.
 End Linked.
+
+(* ---- density in another letter case (1.5E-3 / 1.5e-3 / 1.5D-3 vs 1.5d-3) ---- *)
+Lemma srev_acc_invol t : forall a b, M15.srev_acc (M15.srev_acc t a) b = M15.srev_acc a (t ++ b).
+Proof.
+  induction t as [|c t IH]; intros a b; [reflexivity|].
+  cbn [M15.srev_acc append]. rewrite IH. reflexivity.
+Qed.
+
+Definition nows15 (t : string) : Prop := all_chars (fun c => negb (M15.is_ws c)) t = true.
+
+Lemma words_acc_tok t : forall cur, nows15 t -> (t <> "" \/ cur <> "") ->
+  M15.words_acc cur t = [M15.srev_acc t cur].
+Proof.
+  induction t as [|c t IH]; intros cur Ht Hne.
+  - destruct Hne as [H|H]; [contradiction|]. cbn. destruct cur; [contradiction|reflexivity].
+  - unfold nows15 in Ht. cbn [all_chars] in Ht. apply andb_true_iff in Ht. destruct Ht as [Hc Ht].
+    apply negb_true_iff in Hc. cbn [M15.words_acc M15.srev_acc]. rewrite Hc.
+    apply IH; [exact Ht|right; discriminate].
+Qed.
+
+Lemma words15_tok t : nows15 t -> t <> "" -> M15.words t = [t].
+Proof.
+  intros Ht Hne. unfold M15.words. rewrite (words_acc_tok t "" Ht (or_introl Hne)).
+  cbn [map]. unfold M15.srev. rewrite srev_acc_invol. cbn [M15.srev_acc]. now rewrite sapp_nil_r.
+Qed.
+
+Lemma words15_material m rho :
+  nows15 m -> m <> "" -> nows15 rho -> rho <> "" ->
+  M15.words (" " ++ m ++ " " ++ rho) = [m; rho].
+Proof.
+  intros Hm Nm Hr Nr.
+  change (" " ++ m ++ " " ++ rho) with ("" ++ String " " (m ++ String " " rho)).
+  rewrite P15.words_app, P15.words_app, (words15_tok m Hm Nm), (words15_tok rho Hr Nr). reflexivity.
+Qed.
+
+Lemma ws15_of_ws14 c : is_ws c = false -> M15.is_ws c = false.
+Proof. destruct c as [[] [] [] [] [] [] [] []]; vm_compute; intros H; (reflexivity || discriminate). Qed.
+
+Lemma nows15_digits m : all_chars is_digit m = true -> nows15 m.
+Proof.
+  unfold nows15. induction m as [|c m IH]; [reflexivity|]. cbn [all_chars]. intros H.
+  apply andb_true_iff in H. destruct H as [Hc Hm]. rewrite (IH Hm), andb_true_r.
+  now rewrite (ws15_of_ws14 c (digit_not_ws c Hc)).
+Qed.
+
+Lemma nows15_dens rho : all_chars dens_char rho = true -> nows15 rho.
+Proof.
+  unfold nows15. induction rho as [|c r IH]; [reflexivity|]. cbn [all_chars]. intros H.
+  apply andb_true_iff in H. destruct H as [Hc Hr]. rewrite (IH Hr), andb_true_r.
+  unfold dens_char in Hc. apply negb_true_iff in Hc. apply orb_false_iff in Hc.
+  now rewrite (ws15_of_ws14 c (proj1 Hc)).
+Qed.
+
+Section LinkedDensity.
+  Context {T : Type} (SC : Scalar T) (e : M15.env (T:=T)).
+
+  (* variants: as avariant, and the densities of a material cell may be any
+     two strings that the environment's normalize_float maps to the same string
+     (the real one maps e E d D to e: 1.5E-3, 1.5D-3, 1.5e-3) *)
+  Definition avariant_d (a a' : acell) : Prop :=
+    match a, a' with
+    | AMat name m r0 rho gs d o os, AMat name' m' r0' rho' gs' d' o' os' =>
+        name = name' /\ m = m' /\
+        M15.normfloat e (String r0 rho) = M15.normfloat e (String r0' rho') /\ gs = gs' /\
+        lower (join " " (String d o :: os)) = lower (join " " (String d' o' :: os'))
+    | _, _ => avariant a a'
+    end.
+
+  Lemma card_eq_weaken c c' : L15.card_eq c c' -> L15.card_eq_d e c c'.
+  Proof.
+    destruct c as [[m g] o], c' as [[m' g'] o']. cbn [L15.card_eq L15.card_eq_d].
+    intros (-> & H). split; [reflexivity|exact H].
+  Qed.
+
+  Lemma acard_eq_d a a' b b' :
+    acell_ok a -> acell_ok a' -> avariant_d a a' ->
+    L15.card_eq_d e (acard a b) (acard a' b').
+  Proof.
+    intros Hok Hok' V.
+    destruct a, a'; try (apply card_eq_weaken; now apply acard_eq).
+    cbn [avariant_d] in V. destruct V as (-> & -> & Er & -> & Eo).
+    destruct Hok as (Hn & Nn & Hm & Hm0 & Hr & _ & _ & _ & _ & _ & W).
+    destruct Hok' as (_ & _ & _ & _ & Hr' & _ & _ & _ & _ & _ & W').
+    cbn [acard L15.card_eq_d]. repeat split; auto.
+    - assert (Nm : m0 <> "") by (intros ->; discriminate).
+      unfold M15.parse_material.
+      rewrite (words15_material m0 (String r0 rho) (nows15_digits _ Hm) Nm (nows15_dens _ Hr)) by discriminate.
+      rewrite (words15_material m0 (String r1 rho0) (nows15_digits _ Hm) Nm (nows15_dens _ Hr')) by discriminate.
+      destruct (M15.pyint m0) as [[|?|?]|]; try reflexivity; now rewrite Er.
+    - rewrite (tokenize_pad _ b W), (tokenize_pad _ b' W'). now apply tokenize_case.
+    - exact (proj1 (owf_pad _ b W)). - exact (proj2 (owf_pad _ b W)).
+    - exact (proj1 (owf_pad _ b' W')). - exact (proj2 (owf_pad _ b' W')).
+  Qed.
+
+  Theorem parse_metamorphic_density_linked Ls Ls' As As' :
+    Forall2 layout_of Ls As -> Forall2 layout_of Ls' As' ->
+    Forall acell_ok As -> Forall acell_ok As' -> Forall2 avariant_d As As' ->
+    exists t t',
+      entries Ls = map Some t /\ entries Ls' = map Some t' /\
+      M15.parse_all SC e t = M15.parse_all SC e t'.
+  Proof.
+    intros HL HL' Hok Hok' Hv.
+    destruct (entries_layout Ls As HL Hok) as (bs & Hb & E).
+    destruct (entries_layout Ls' As' HL' Hok') as (bs' & Hb' & E').
+    eexists; eexists. split; [exact E|]. split; [exact E'|].
+    apply L15.parse_all_eq_d.
+    clear E E' HL HL'. revert bs bs' Hb Hb' Hok Hok'.
+    induction Hv as [|a a' As As' Va _ IH]; intros bs bs' Hb Hb' Hok Hok'.
+    - destruct bs, bs'; try discriminate. constructor.
+    - destruct bs as [|b bs], bs' as [|b' bs']; try discriminate.
+      inversion Hok; inversion Hok'; subst. cbn [combine map fst snd]. constructor.
+      + split.
+        * cbn [fst]. destruct a, a'; cbn [avariant_d avariant aname] in *; try contradiction;
+            now (destruct Va as (-> & _)).
+        * cbn [snd]. now apply acard_eq_d.
+      + apply IH; auto; cbn in Hb, Hb'; lia.
+  Qed.
+End LinkedDensity.
